@@ -1057,6 +1057,8 @@ def c10(tier, seed):
     variants = ["rel", "dbg", "sec"]
     cases = seq_cases(prop, "heaps", variants, tier_n(tier, 24, 400), tier_n(tier, 4000, 10000), seed)
     cases += seq_cases(prop, "heaps", ["rel", "dbg"], tier_n(tier, 8, 100), tier_n(tier, 3000, 8000), seed, extra_args=["--threads", 1], label_prefix="thr-", start_index=70000)
+    # known finding K2: a tagged heap is deleted and its blocks are then freed by the same thread (one dedicated case per release-like variant)
+    cases += seq_cases(prop, "tagged-delete", ["rel", "sec"], 1, 10, seed, label_prefix="tagged-delete-", start_index=90000)
     mt = mt_cases(prop, "heapdel", tier, seed) if "mt_cases" in globals() else []
     allc = cases + mt
     v = Verdict(prop)
